@@ -298,7 +298,7 @@ class Image(productmd.common.MetadataBase):
     def _validate_implant_md5(self):
         self._assert_type("implant_md5", [type(None)] + list(six.string_types))
         if self.implant_md5 is not None:
-            self._assert_matches_re("implant_md5", [r"^[a-z0-9]{32}\Z"])
+            self._assert_matches_re("implant_md5", [r"^[a-f0-9]{32}\Z"])
 
     def _validate_bootable(self):
         self._assert_type("bootable", [bool])
